@@ -18,6 +18,8 @@ type DIO struct {
 	Fault func(op, file string, offset int64) error
 	Trace *[]string
 	Calls int
+	// OnWrite, when set, observes every block write before it is executed.
+	OnWrite func(file string, off int64, block []byte)
 }
 
 func NewDIO() *DIO { return &DIO{Inner: fs.NewDirectIO()} }
@@ -71,6 +73,12 @@ func (d *DIO) Open(ctx context.Context, filename string, flag int, permission os
 func (d *DIO) WriteAt(ctx context.Context, file *os.File, block []byte, offset int64) (int, error) {
 	if err := d.ptd("WriteAt", file.Name(), offset, block); err != nil {
 		return 0, err
+	}
+	d.mu.Lock()
+	ow := d.OnWrite
+	d.mu.Unlock()
+	if ow != nil {
+		ow(file.Name(), offset, block)
 	}
 	return d.Inner.WriteAt(ctx, file, block, offset)
 }
